@@ -143,6 +143,7 @@ int FidelityMain(uint64_t seed, uint64_t first, uint64_t count, const std::strin
     Scenario sc = GenerateScenario(tape, 0, gp);
     Profile prof = GetProfile("C01", false);
     prof.child_output = false;
+    prof.backdating_cmds = false;   // the real helper command stamps its outputs with the current time
     RunStats stats;
     std::vector<Violation> viol;
     World w;
@@ -175,6 +176,7 @@ int FidelityMain(uint64_t seed, uint64_t first, uint64_t count, const std::strin
     chmod((D + "/sim").c_str(), 0755);
     std::vector<BuildObs> so, ro;
     std::string problems;
+    if (getenv("SIM_FID_DEBUG")) { HPrintf("%s\n", w.sc.ManifestText().c_str()); for (auto& st : steps) HPrintf("step kind=%d path=%s stmt=%d targets=%zu\n", st.kind, st.path.c_str(), st.stmt, st.targets.size()); }
     for (auto& st : steps) {
       if (st.kind == 1) { w.version[st.path]++; std::string c = w.SourceContent(st.path); w.k.WriteFile(st.path, c, true); WriteReal(D + "/" + st.path, c); }
       else if (st.kind == 2) { std::string c; w.k.ReadFile(st.path, &c); w.k.WriteFile(st.path, c, true); WriteReal(D + "/" + st.path, c); }
